@@ -143,7 +143,7 @@ def all_harnesses(mod, tier, seed):
         return hs
     only = os.environ.get("TW_VERIF_ONLY")
     out = []
-    skip = getattr(mod, "FORMS_SKIP", ())
+    skip = tuple(getattr(mod, "FORMS_SKIP", ())) + (tuple(getattr(mod, "FORMS_SKIP_QUICK", ())) if tier == "quick" else ())
     for h in hs:
         if "body" in h and h["name"] not in skip and (sel == "all" or h["name"] in sel):
             spec = dict(sel.get(h["name"], {}) if isinstance(sel, dict) else {})
